@@ -66,3 +66,46 @@ macro_rules! both_suites {
         $f::<$crate::api::Shake>($($a),*);
     }};
 }
+
+/// Prior history on the current thread: a few operations of other sizes and interfaces before a scenario,
+/// so that state kept between calls by the library (caches keyed too coarsely, buffers reused) is in place.
+pub fn history_warmup<X: Sx>(ctx: &crate::common::Ctx, r: &mut impl RngCore, around: usize) {
+    use crate::common::*;
+    let (sk, pk) = keypair::<X>(r);
+    let sizes = [around / 2, around.saturating_sub(1), around + 1, (r.next_u32() % 9) as usize];
+    for (k, &n) in sizes.iter().enumerate() {
+        if n > 300 {
+            continue;
+        }
+        let msgs = gen_messages(r, n, k);
+        let fuel = Some(n as u64 + 80);
+        if let Some(s) = ctx.call("sign", "history", fuel, || Sig::<X>::sign(Some(&msgs), &sk, &pk, None)).value {
+            let _ = ctx.call("verify", "history", fuel, || s.verify(&pk, Some(&msgs), None));
+            if k % 2 == 0 {
+                let d: Vec<usize> = (0..n).step_by(2).collect();
+                let _ = ctx.call("proof_gen", "history", fuel, || Pok::<X>::proof_gen(&pk, &s.to_bytes(), None, None, Some(&msgs), Some(&d)));
+            }
+        }
+        if k == 1 {
+            let cm = gen_messages(r, n.min(6), k);
+            if let Some((c, _)) = ctx.call("commit", "history", fuel, || Com::<X>::commit(Some(&cm))).value {
+                let _ = ctx.call("blind_sign", "history", fuel, || BSig::<X>::blind_sign(&sk, &pk, Some(&c.to_bytes()), None, Some(&msgs)));
+            }
+        }
+    }
+}
+
+/// Run `f` on a newly spawned thread (no thread-local history at all) and return its result. Verifiers and
+/// holders normally live in other threads / processes than the signer: outputs must not depend on what the
+/// producing thread did before.
+pub fn on_fresh_thread<T: Send>(f: impl FnOnce() -> T + Send) -> T {
+    let scn = crate::common::current_scenario();
+    std::thread::scope(|sc| {
+        sc.spawn(move || {
+            crate::common::set_scenario(&scn);
+            f()
+        })
+        .join()
+        .expect("fresh thread panicked")
+    })
+}
